@@ -39,8 +39,11 @@ def run(ck):
                       "bottom-left corner",
                       "coordinates and LAParams ratios dyadic, so binary64 evaluation is exact in direction A"]
     quick = ck.tier == "quick"
-    LC.direction_a(ck, PID, LC.C09_INV, [], pdf_every=2 if quick else 1, pdf_scales=[1, 8], pdf_text_every=10 ** 9)
-    LC.direction_b(ck, PID, dev)
+    traces = LC.record_samples(ck, PID)
+    jobs = LC.trace_jobs(ck, traces, dev, PID)
+    LC.direction_a(ck, PID, LC.C09_INV, [], pdf_every=3 if quick else 1, pdf_scales=[1, 8], pdf_text_every=10 ** 9,
+                   extra_jobs=jobs)
+    LC.finish_traces(ck, LC.extra_results())
     ck.exhaustive = True
 
 
